@@ -63,6 +63,27 @@ def e2e(params):
     return {"violated": bool(bad), "problems": bad[:4]}
 
 
+def many(params):
+    """machine-integer replay: one side with more components than a smaller result dtype can number (> 255, > 65535 is out of the time budget)"""
+    bad = []
+    for n_many, n_few in ((300, 2), (257, 0), (300, 300)):
+        for swap in (False, True):
+            a = np.zeros((2 * n_many + 4,), np.uint8)
+            a[1:2 * n_many:2] = 1  # n_many single-voxel components
+            b = np.zeros_like(a)
+            b[1:4 * n_few:4] = 1
+            p, r = (b, a) if swap else (a, b)
+            for be in (None, "cc3d", "scipy"):
+                try:
+                    bb = check_approx(p.copy(), r.copy(), be)
+                except Exception as e:
+                    bb = [f"raised {type(e).__name__}: {e}"[:160]]
+                if bb:
+                    bad.append({"components": [int(n_many), int(n_few)], "many_side": "reference" if swap else "prediction", "backend": be, "problems": bb[:2]})
+                    break
+    return {"violated": bool(bad), "problems": bad[:3]}
+
+
 def bounded(params):
     tier, seed = params.get("tier", "quick"), int(params.get("seed", 0))
     rng = random.Random(seed)
